@@ -69,7 +69,7 @@ func TestC14(t *testing.T) {
 		cfg := mkCfgRefless(e)
 		w := NewWorld(t, WorldOpt{Namespaces: cfg.NS, Depth: 6})
 		ts := []refsem.Tuple{
-			tss("o1", "a", "g1", "a"), tss("o2", "a", "g1", "a"), tid("g1", "a", "u"),
+			tss("o1", "a", "g1", "a"), tss("o2", "a", "g1", "a"), tss("g1", "a", "g3", "a"), tid("g3", "a", "u"), // two hops: the visited set matters
 			tss("g1", "a", "g2", "a"), tss("g2", "a", "g1", "a"), // cycle
 			tid("o1", "b", "v"), tid("o2", "b", "u"), tss("o3", "a", "o3", "a"), // self loop
 		}
@@ -144,6 +144,23 @@ func TestC14(t *testing.T) {
 				cov.complete = false
 			}
 		}
+		// state kept for one request must not survive it: the base-schedule answer of every request,
+		// taken before anything else ran on this engine, must be what it answers after all the others ran
+		firstAnswers := make([]string, len(reqs))
+		for i, r := range reqs {
+			out := make([]string, 1)
+			exec(vsched.Config{FastBase: true}, []c14req{r}, out)
+			firstAnswers[i] = out[0]
+		}
+		defer func(cfgName string) {
+			for i, r := range reqs {
+				out := make([]string, 1)
+				exec(vsched.Config{FastBase: true}, []c14req{r}, out)
+				if out[0] != firstAnswers[i] {
+					run.Violation("state-survives-request:"+strings.Fields(r.name)[0], fmt.Sprintf("request %q answered %q when it was the first request on the engine and %q after other requests had run (config %s)", r.name, firstAnswers[i], out[0], cfgName), map[string]any{"config": cfgName, "request": r.name})
+				}
+			}
+		}(cfg.Name)
 		for i := 0; i < len(reqs); i++ {
 			for j := i; j < len(reqs); j++ {
 				n++
